@@ -51,3 +51,91 @@ def src_file(rel):
     """Absolute file name of a dateutil source file as code objects see it."""
     import dateutil
     return os.path.join(os.path.dirname(dateutil.__file__), rel)
+
+
+class _OptLoader(object):
+    """Source loader that compiles like ``python -O`` does (assert statements
+    and ``if __debug__`` blocks removed), bypassing every byte-code cache."""
+
+    def __init__(self, name, path, is_pkg):
+        self.name = name
+        self.path = path
+        self._is_pkg = is_pkg
+
+    def create_module(self, spec):
+        return None
+
+    def exec_module(self, module):
+        with open(self.path, "rb") as f:
+            data = f.read()
+        code = compile(data, self.path, "exec", dont_inherit=True, optimize=1)
+        exec(code, module.__dict__)
+
+    def is_package(self, fullname):
+        return self._is_pkg
+
+    def get_filename(self, fullname):
+        return self.path
+
+    def get_data(self, path):
+        # pkgutil.get_data() (the bundled zone archive) goes through here
+        with open(path, "rb") as f:
+            return f.read()
+
+
+class _OptFinder(object):
+    def find_spec(self, fullname, path=None, target=None):
+        if fullname != "dateutil" and not fullname.startswith("dateutil."):
+            return None
+        import importlib.machinery as m
+        import importlib.util as u
+        spec = m.PathFinder.find_spec(fullname, path)
+        if spec is None or not spec.origin or \
+                not spec.origin.endswith(".py"):
+            return spec
+        is_pkg = spec.submodule_search_locations is not None
+        new = u.spec_from_file_location(
+            fullname, spec.origin,
+            loader=_OptLoader(fullname, spec.origin, is_pkg),
+            submodule_search_locations=spec.submodule_search_locations)
+        return new
+
+
+def reimport_optimized():
+    """Throw the imported dateutil away and import it again compiled as the
+    interpreter compiles under ``-O`` (an interpreter configuration the
+    simulator can choose per run; only ever called in a forked run process).
+    The lock seam stays in place (six.moves._thread is still the shim)."""
+    from . import kernel
+    for name in [n for n in sys.modules
+                 if n == "dateutil" or n.startswith("dateutil.")]:
+        del sys.modules[name]
+    finder = _OptFinder()
+    sys.meta_path.insert(0, finder)
+    try:
+        import dateutil
+        import dateutil.rrule
+        import dateutil.tz
+        import dateutil.tz.tz
+        import dateutil.tz._factories
+        import dateutil.parser
+        import dateutil.parser._parser
+        import dateutil.relativedelta
+        import dateutil.utils
+        import dateutil.zoneinfo
+        import dateutil.easter
+    finally:
+        sys.meta_path.remove(finder)
+    src = os.path.realpath(REPO_SRC)
+    got = os.path.realpath(os.path.dirname(os.path.dirname(dateutil.__file__)))
+    if got != src:
+        raise RuntimeError("dateutil re-imported from %s, expected %s" %
+                           (got, src))
+    if not isinstance(dateutil.tz.gettz._cache_lock, kernel.SimLock):
+        raise RuntimeError("lock seam lost by the optimised re-import")
+    # proof that the optimised compilation is in force
+    if any(ins.opname == "LOAD_ASSERTION_ERROR" for ins in
+           __import__("dis").get_instructions(
+               dateutil.relativedelta.relativedelta._fix)):
+        raise RuntimeError("optimised re-import still holds assert code")
+    return dateutil
